@@ -219,6 +219,16 @@ example : allPoints.all (fun p =>
     decide (((runPlan Ex s (rdx 2 [20, 21] :: rest)).foldl (step Ex) s).certs.length = s.certs.length + 4)) = true := by
   decide +kernel
 
+/-- the other way a stop could lose a round for good — the open message flagged certified, the certificate
+missing, so that the scan skips the entity for ever — is produced by no cut, anywhere, in any history (no
+well-formedness needed): the insert comes before the update at every crash point. Together with
+`C15_progress_partial`: the interrupted entity is either certified already (certificate stored) or still
+open, and then it is the one the continuation certifies when the time point offers it first. -/
+theorem C15_flag_has_certificate (E : Env) (n g : Nat) (evs : List Event) :
+    let s := evs.foldl (step E) (init n g)
+    ∀ o ∈ s.oms, o.certified = true → ∃ c ∈ s.certs, c.entity = some o.entity :=
+  run_flagged E evs (init n g) (flagged_init n g)
+
 /-- NOTE (why the continuation has to contain submissions; not a clause of C15): both parties' signatures
 for the coming open message of entity 20 sit in the buffer, the tick that creates the open message is cut
 before the hand-over (`hoBefore`), the process restarts. Ticks alone then never certify the round — the
